@@ -103,15 +103,20 @@ def pay_oracle(rep, S, A, proof, mcfg, nonce_s, amount_s):
     # revealed commitment scalars: close tag (close proof) and old nonce (pay token proof)
     for i, hits in bound["kappa"].items():
         kap = fld(proof, i)
+        designed = 0
         for pname, jj in hits:
             role = lay["close" if pname == "close" else "state"][jj]
             vec = rsv[pname]
             if role == "close":
                 eqs.append((at(vec, jj), ("add", ("mul", c, ("const", CLOSE_CONST)), kap)))
+                designed += 1
             elif role == "nonce" and pname == "old":
                 eqs.append((at(vec, jj), ("add", ("mul", c, nonce_s), kap)))
-            else:
-                return None
+                designed += 1
+            # a revealed scalar that additionally coincides with the mask of a hidden slot is not part of R_pay
+            # (the verifier has no public value to check it against); C14 `revealed-masks` decides whether that is a leak
+        if not designed:
+            return None
     for x, y in eqs:
         want = b.AND(want, S.alg.eq(x, y))
     # range constraints: which RangeConstraint field is linked to which balance is fixed by the prover
